@@ -88,6 +88,7 @@ func bodyKey(b []byte) string {
 }
 
 var afTypeName = map[string]string{"uri": "uri", "uripost": "uripost", "raw": "raw", "json": "http/json"}
+var afDecoderName = map[string]string{"uri": "uri", "uripost": "uripost", "raw": "raw", "json": "jsonline"}
 
 var (
 	afFS        afero.Fs
@@ -228,6 +229,11 @@ func afProviderConf(c *afCase, path string, yamlShape bool) interface{} {
 	if len(chosen) > 0 {
 		m["chosencases"] = chosen
 	}
+	if c.ID%3 == 0 {
+		// the generic registration: type http + decoder option
+		m["type"] = "http"
+		m["decoder"] = afDecoderName[c.Fmt]
+	}
 	if !yamlShape {
 		return map[string]interface{}{"ammo": m}
 	}
@@ -250,6 +256,9 @@ func afRunOnce(c *afCase, data []byte) *afObs {
 	obs.Via = "viper"
 	if yamlShape {
 		obs.Via = "yaml"
+	}
+	if c.ID%3 == 0 {
+		obs.Via += "+http/decoder"
 	}
 	var holder struct {
 		Ammo core.Provider
